@@ -1,4 +1,6 @@
 """C04 (garbage collection) and C09 (rotational order of halffaces around an edge): pairing, trigger and shape rules"""
+import re
+
 from .extract import AnalysisBroken
 from .facts import as_assign, estr, need_names, unwrap, walk
 from .lockstep import Ctx, delete_cores, elem_effects, find_gc, gc_rules, owner_rule, compute_rule, km_cache
@@ -187,6 +189,27 @@ def run_c09(ck, fb, fbd):
                 ok = other_ok and not mode
             else:
                 ok = (he, True) in at and (hf, True) in at and not mode
+                # any further condition skips the re-ordering for some edges: only lists with fewer than two
+                # halffaces are trivially ordered (and mirrored), so the only admissible extra atom is such a size test
+                for cnd, pol in at:
+                    if (cnd, pol) in ((he, True), (hf, True)) or cnd in MODE_ATOMS:
+                        continue
+                    m = re.match(r"^\((.*)\.size\(\) (>|>=|!=|<|<=|==) (\d+)\)$", cnd)
+                    thr = None
+                    if m and pol is True and m.group(2) in (">", ">=", "!="):
+                        thr = int(m.group(3)) + (1 if m.group(2) == ">" else 0)  # smallest size that still reorders
+                        if m.group(2) == "!=":
+                            thr = 1 if m.group(3) == "0" else 99
+                    elif m and pol is False and m.group(2) in ("<", "<=", "=="):
+                        thr = int(m.group(3)) + (1 if m.group(2) == "<=" else 0)
+                        if m.group(2) == "==":
+                            thr = 1 if m.group(3) == "0" else 99
+                    elif re.match(r"^.*\.empty\(\)$", cnd) and pol is False:
+                        thr = 1
+                    if thr is None:
+                        raise AnalysisBroken("%s: %s re-orders under the additional condition %s%s which rule C09.trigger cannot judge - re-audit" % (g.loc(n), name, "" if pol else "!", cnd))
+                    if thr > 2:
+                        ok = False
             (ck.ok if ok else lambda r, w, t: ck.violate(r, w, t, "C09.trigger:%s" % name))("C09.trigger", g.loc(n), "%s reorders under %s (both kinds, no deletion-mode condition)" % (name, fmt_atoms(at)))
             cache = want.get(name)
             if cache:
